@@ -11,5 +11,5 @@ META = {
 
 def run(ctx):
     durcommon.exhaustive(ctx, "C05")
-    durcommon.run_file(ctx, "crash", 12 if ctx.thorough() else 2, 800 if ctx.thorough() else 90, "C05")
+    durcommon.run_file(ctx, "crash", 8 if ctx.thorough() else 2, 500 if ctx.thorough() else 90, "C05")
     ctx.assumptions += durcommon.ASSUME
